@@ -919,6 +919,46 @@ theorem idp_exact (configured dns : Str) :
     (configured = [] → idpURL configured dns = Verif.s "https://" ++ dns ++ Verif.s "/1.0/crl") := by
   unfold idpURL; constructor <;> intro h <;> simp [h]
 
+/-! ## 5b'. the configuration of the CRL section -/
+
+/-- **ticker_within_cache.** For every ca.json CRL section that a CA accepts (`Config.Init`, `Validate`, the authority's
+    defaulting, in that order) with publication enabled: the cache duration is positive, and the generator's period is
+    not longer than it — a list is regenerated before (or when) the previous one expires — and is positive as soon as
+    the cache duration is at least 3 ns. -/
+theorem ticker_within_cache (c : CRLCfg) (he : c.enabled = true) (d t : Int) (h : pipeline c = some (d, t)) :
+    0 < d ∧ 0 ≤ t ∧ t ≤ d ∧ (3 ≤ d → 0 < t) := by
+  cases c with
+  | mk en ca re =>
+    simp only at he
+    subst he
+    cases ca with
+    | none =>
+      cases re with
+      | none =>
+        simp [pipeline, CRLCfg.init, CRLCfg.valid, CRLCfg.effective, CRLCfg.ticker, dayNs] at h
+        omega
+      | some r =>
+        simp only [pipeline, CRLCfg.init, CRLCfg.valid, CRLCfg.effective, CRLCfg.ticker, dayNs, Option.isNone_none,
+          Bool.and_self, if_true, Bool.not_true, Bool.false_eq_true, if_false, Option.getD_some] at h
+        by_cases hr : 0 < r <;> simp [hr] at h <;> omega
+    | some d0 =>
+      cases re with
+      | none =>
+        simp only [pipeline, CRLCfg.init, CRLCfg.valid, CRLCfg.effective, CRLCfg.ticker, dayNs, Option.isNone_some,
+          Bool.and_false, Bool.false_eq_true, if_false, Bool.not_true] at h
+        by_cases hd : d0 ≤ 0 <;> simp [hd] at h <;> omega
+      | some r =>
+        simp only [pipeline, CRLCfg.init, CRLCfg.valid, CRLCfg.effective, CRLCfg.ticker, dayNs, Option.isNone_some,
+          Bool.and_false, Bool.false_eq_true, if_false, Bool.not_true] at h
+        by_cases hd : d0 ≤ 0 <;> by_cases hr : 0 < r <;> simp [hd, hr] at h <;> omega
+
+/-- **tiny_cache_duration_accepted (D35).** A cache duration of 1 or 2 ns passes `Validate` with publication enabled
+    and gives the generator a period of 0, for which `time.NewTicker` panics in `startCRLGenerator`: the CA accepts
+    the configuration and then aborts during start-up (stage config observes the panic on the real authority). -/
+theorem tiny_cache_duration_accepted :
+    ∃ c : CRLCfg, c.enabled = true ∧ c.init.valid = true ∧ pipeline c = some (2, 0) :=
+  ⟨{ enabled := true, cache := some 2, renew := none }, by decide⟩
+
 /-! ## 5c. one process-wide CRL section (since 7329bb4): old and new authority on one database -/
 
 /-- forget what depends on the cache duration: the NextUpdate of the lists -/
